@@ -76,7 +76,8 @@ MCBreak ==
   /\ phase = 1 /\ phase' = 6
   /\ enforcer /\ (DeepReload \/ policy = {} \/ policy = Entries)
   /\ \E kind \in {"removed", "torn"} :
-       /\ DoBreakFile(IF kind = "torn" THEN Toggle(policyFile, EntryOf(last.call)) ELSE policyFile)
+       /\ \E e \in (IF kind = "torn" THEN Needs(last.call) ELSE {EntryOf(last.call)}) :
+            DoBreakFile(IF kind = "torn" THEN Toggle(policyFile, e) ELSE policyFile)
        /\ last' = [a |-> "BreakFile", call |-> last.call, held |-> last.held, kind |-> kind]
 MCReloadFail ==
   /\ phase = 6 /\ phase' = 7
@@ -105,7 +106,9 @@ MCEdit ==
   /\ enforcer
   /\ DeepReload \/ policy = {} \/ policy = Entries
   \* (after a write that stopped half-way the corrected file holds the revision that was being written)
-  /\ DoEditPolicy(IF phase = 7 /\ last.kind = "torn" THEN policyFile ELSE Toggle(policyFile, EntryOf(last.call)))
+  \* the entry toggled is any of the entries the call needs (its own, or one a nested call needs)
+  /\ \E e \in (IF phase = 7 /\ last.kind = "torn" THEN {EntryOf(last.call)} ELSE Needs(last.call)) :
+       DoEditPolicy(IF phase = 7 /\ last.kind = "torn" THEN policyFile ELSE Toggle(policyFile, e))
   /\ \E how \in {"inplace", "rename"} : last' = [a |-> "EditPolicy", call |-> last.call, held |-> last.held, how |-> how]
 
 MCReload ==
@@ -131,7 +134,7 @@ MCView == <<vars, phase, IF "how" \in DOMAIN last THEN [last EXCEPT !.how = "-"]
 \* (GroupAuthz = FALSE is the pinned variant of the group handlers: TLC then reports the unauthorised group call)
 StepOK ==
   LET a == last' IN
-  CASE a.a = "Call" -> P_Call(a.call)
+  CASE a.a = "Call" -> P_Call(a.call) /\ P_Denial
     [] a.a = "EditPolicy" -> P_Edit
     [] a.a = "Reload" -> P_Reload
     [] a.a = "BreakFile" -> P_Edit
